@@ -233,7 +233,7 @@ def protocol_part(ctx):
     ic.design(ctx, [("MC_IndexBreak.cfg", "2 pages, break / fix, create with and without -f, reindex, refusals")])
 
     def cats(c):
-        return c.startswith(("refusal.", "db.", "files.", "command.failed", "agreement."))
+        return c.startswith(("refusal.", "db.", "files.", "command.failed", "agreement.", "whitelist."))
 
     ic.tour(ctx, [("Sim_IndexBreak.cfg", 30 if ctx.quick else 600, 10)], {"idempotence": False, "rebuild": False}, cats,
             "C08 protocol")
